@@ -1,6 +1,7 @@
 package vc
 
 import (
+	"go/ast"
 	"os"
 	"sort"
 	"fmt"
@@ -479,10 +480,48 @@ func (ex *Exec) doGo(st *State, fr *Frame, in *ssa.Go) {
 			}
 		}
 	}
+	// ghost event: one more goroutine started
+	if g, ok := st.ghost["go.started"].(*Term); ok {
+		st.ghost["go.started"] = Add(g, IntLit(1))
+	}
+	// a body under contract: its preconditions are obligations of the go statement (the body is verified
+	// against its contract on its own, as a goroutine body)
+	if mc, ok := c.Value.(*ssa.MakeClosure); ok && len(c.Args) == 0 {
+		if callee, ok := mc.Fn.(*ssa.Function); ok {
+			if ct, ok := ex.Contracts[ex.FuncKey(callee)]; ok && len(ct.Requires) > 0 {
+				ex.cur.contractsUsed[ex.FuncKey(callee)] = true
+				env := &Env{vars: map[string]Value{}, defs: ct.Defines, pkg: ct.Pkg}
+				for i, fv := range callee.FreeVars {
+					if i < len(mc.Bindings) {
+						bv := ex.val(st, fr, mc.Bindings[i])
+						if p, ok := bv.(*VPtr); ok && p.Obj != nil {
+							bv = ex.specLoad(st, p)
+						}
+						env.vars[fv.Name()] = bv
+					}
+				}
+				pre := st.clone()
+				pre.frames = nil
+				env.old = pre
+				for _, rq := range ct.Requires {
+					ex.oblige(st, "requires", fmt.Sprintf("requires:go %s.%s@%s", shortName(ct.Key()), rq.Label, ex.siteName(st, in, "go")), ex.evalBool(st, rq.E, env, rq), in.Pos(), rq.Src)
+				}
+			}
+		}
+	}
 	mark(c.Value)
 	for _, a := range c.Args {
 		mark(a)
 	}
+}
+
+// blockCheck: in a goroutine body that has to end promptly (contract attribute `goroutine`), an operation
+// that may block for ever is an obligation: a channel send needs a free buffer slot that is known to exist.
+func (ex *Exec) blockCheck(st *State, instr ssa.Instruction, what string, ok *Term) {
+	if ex.cur == nil || ex.cur.contract == nil || !ex.cur.contract.hasAttr("goroutine") {
+		return
+	}
+	ex.check(st, "block", instr, ok, what+" in a goroutine that has to end with its call")
 }
 
 var volatileObjs = map[*Object]bool{}
@@ -492,6 +531,15 @@ func (st *State) volatile(o *Object) { volatileObjs[o] = true }
 func (ex *Exec) doSend(st *State, fr *Frame, in *ssa.Send) {
 	// ghost event: record the send
 	x := ex.val(st, fr, in.X)
+	if ch, ok := ex.val(st, fr, in.Chan).(*VOpaque); ok && ch.ID != nil {
+		nsent := 0
+		if g, ok := st.ghost["$sends"].(*VTuple); ok {
+			nsent = len(g.Vals)
+		}
+		ex.blockCheck(st, in, "channel send that may block", Gt(App("chan.cap", SInt, ch.ID), IntLit(int64(nsent))))
+	} else {
+		ex.blockCheck(st, in, "channel send that may block", False)
+	}
 	n := 0
 	if g, ok := st.ghost["$sends"]; ok {
 		n = len(g.(*VTuple).Vals)
@@ -919,6 +967,9 @@ func (ex *Exec) callFunction(st *State, fr *Frame, instr ssa.Instruction, callee
 		ex.cur.libCalls[calleeName(callee)] = true
 		return finish(mdl(ex, st, instr, args))
 	}
+	if res, ok := ex.trySummary(st, instr, callee, key, args); ok {
+		return finish(res)
+	}
 	if ct, ok := ex.Contracts[key]; ok && !(callee == ex.cur.fn && len(st.frames) == 0) {
 		if !ct.hasAttr("inline") {
 			ex.cur.contractsUsed[key] = true
@@ -1266,3 +1317,208 @@ func (ex *Exec) builtinAppend(st *State, instr ssa.Instruction, s *VSlice, morev
 }
 
 var _ = token.NoPos
+
+// ---------------------------------------------------------------------------
+// per-type summaries of a reflective call
+//
+// attr summarize = <callee key suffix> by <lemma prefix>
+//
+// A call F(b, p) whose second argument has the known dynamic type *T (T a named type of the package of the
+// function under proof) and points to a zero value of T is replaced by the contract of the lemma function
+// <prefix>T of that package, PROVIDED that function's source is literally
+//
+//	var m T
+//	err := F(b, &m)
+//	return m, err
+//
+// (checked on its syntax tree): the lemma function is then the same call on a zero T, and its contract - proved
+// on F's real body for this T - says everything the caller may rely on. The pointee is overwritten with the
+// lemma's result m, the call returns err.
+func (ex *Exec) trySummary(st *State, instr ssa.Instruction, callee *ssa.Function, key string, args []Value) (Value, bool) {
+	if ex.cur == nil || ex.cur.contract == nil || len(st.frames) != 1 {
+		return nil, false
+	}
+	spec := ex.cur.contract.Attrs["summarize"]
+	if spec == "" {
+		return nil, false
+	}
+	parts := strings.Split(spec, " by ")
+	if len(parts) != 2 || !strings.HasSuffix(key, strings.TrimSpace(parts[0])) || len(args) != 2 {
+		return nil, false
+	}
+	prefix := strings.TrimSpace(parts[1])
+	iface, ok := args[1].(*VIface)
+	if !ok {
+		return nil, false
+	}
+	_, alt := ex.resolveIface(st, iface, instr)
+	if alt == nil {
+		return nil, false
+	}
+	pt, ok := alt.T.(*types.Pointer)
+	if !ok {
+		return nil, false
+	}
+	named, ok := pt.Elem().(*types.Named)
+	if !ok || named.Obj().Pkg() == nil || ex.cur.fn.Pkg == nil || named.Obj().Pkg() != ex.cur.fn.Pkg.Pkg {
+		return nil, false
+	}
+	lkey := named.Obj().Pkg().Path() + "." + prefix + named.Obj().Name()
+	lfn := ex.FuncByKey[lkey]
+	lct := ex.Contracts[lkey]
+	if lfn == nil || lct == nil {
+		ex.unsupported("attr summarize: no lemma function %s under contract", lkey)
+	}
+	if why := summaryShape(lfn, callee, named); why != "" {
+		ex.unsupported("attr summarize: %s is not of the shape `var m T; err := F(b, &m); return m, err`: %s", lkey, why)
+	}
+	ptr, ok := alt.Val.(*VPtr)
+	if !ok {
+		return nil, false
+	}
+	ex.check(st, "nil", instr, Not(ptr.Nil), "nil target")
+	// the target holds the zero value of T
+	isZero := ex.isZeroValue(st, ex.load(st, ptr, instr), ex.zeroValue(named))
+	ex.oblige(st, "requires", fmt.Sprintf("requires:%s.zero-target@%s", shortName(lkey), ex.siteName(st, instr, "call")), isZero, instr.Pos(), "the decoded value starts as the zero value of its type")
+	ex.cur.contractsUsed[lkey] = true
+	res := ex.applyContract(st, instr, ex.paramNames(lfn, lct), ex.resultNames(lfn, lct), lfn.Signature, lct, []Value{args[0]})
+	tup, ok := res.(*VTuple)
+	if !ok || len(tup.Vals) != 2 {
+		ex.unsupported("attr summarize: %s does not return (value, error)", lkey)
+	}
+	ex.store(st, ptr, tup.Vals[0], instr)
+	return tup.Vals[1], true
+}
+
+// summaryShape checks the syntax of a summary lemma; "" if it has the required shape.
+func summaryShape(lfn, callee *ssa.Function, named *types.Named) string {
+	fd, ok := lfn.Syntax().(*ast.FuncDecl)
+	if !ok || fd.Body == nil || fd.Recv != nil {
+		return "no source"
+	}
+	if fd.Type.Params == nil || len(fd.Type.Params.List) != 1 || len(fd.Type.Params.List[0].Names) != 1 {
+		return "one parameter expected"
+	}
+	bname := fd.Type.Params.List[0].Names[0].Name
+	if len(fd.Body.List) != 3 {
+		return "three statements expected"
+	}
+	ds, ok := fd.Body.List[0].(*ast.DeclStmt)
+	if !ok {
+		return "first statement is not a declaration"
+	}
+	gd, ok := ds.Decl.(*ast.GenDecl)
+	if !ok || len(gd.Specs) != 1 {
+		return "first statement is not `var m T`"
+	}
+	vs, ok := gd.Specs[0].(*ast.ValueSpec)
+	if !ok || len(vs.Names) != 1 || len(vs.Values) != 0 {
+		return "first statement is not `var m T`"
+	}
+	if id, ok := vs.Type.(*ast.Ident); !ok || id.Name != named.Obj().Name() {
+		return "declared type is not " + named.Obj().Name()
+	}
+	mname := vs.Names[0].Name
+	as, ok := fd.Body.List[1].(*ast.AssignStmt)
+	if !ok || len(as.Lhs) != 1 || len(as.Rhs) != 1 {
+		return "second statement is not `err := F(b, &m)`"
+	}
+	errID, ok := as.Lhs[0].(*ast.Ident)
+	if !ok {
+		return "second statement is not `err := F(b, &m)`"
+	}
+	call, ok := as.Rhs[0].(*ast.CallExpr)
+	if !ok || len(call.Args) != 2 {
+		return "second statement is not a call with two arguments"
+	}
+	sel, ok := call.Fun.(*ast.SelectorExpr)
+	if !ok || sel.Sel.Name != callee.Name() {
+		return "the call is not to " + callee.Name()
+	}
+	if a0, ok := call.Args[0].(*ast.Ident); !ok || a0.Name != bname {
+		return "first argument is not the parameter"
+	}
+	un, ok := call.Args[1].(*ast.UnaryExpr)
+	if !ok || un.Op != token.AND {
+		return "second argument is not &m"
+	}
+	if a1, ok := un.X.(*ast.Ident); !ok || a1.Name != mname {
+		return "second argument is not &m"
+	}
+	rs, ok := fd.Body.List[2].(*ast.ReturnStmt)
+	if !ok || len(rs.Results) != 2 {
+		return "third statement is not `return m, err`"
+	}
+	r0, ok0 := rs.Results[0].(*ast.Ident)
+	r1, ok1 := rs.Results[1].(*ast.Ident)
+	if !ok0 || !ok1 || r0.Name != mname || r1.Name != errID.Name {
+		return "third statement is not `return m, err`"
+	}
+	// the only call in the function is the one to F
+	n := 0
+	for _, b := range lfn.Blocks {
+		for _, in := range b.Instrs {
+			if c, ok := in.(*ssa.Call); ok {
+				if _, isBuiltin := c.Call.Value.(*ssa.Builtin); isBuiltin {
+					continue
+				}
+				n++
+				if c.Call.StaticCallee() != callee {
+					return "calls something other than " + callee.Name()
+				}
+			}
+		}
+	}
+	if n != 1 {
+		return "exactly one call expected"
+	}
+	return ""
+}
+
+// isZeroValue: v is the zero value z (same shape), compared by kind: pointers, maps, interfaces and functions
+// by being nil, slices by being empty and nil, scalars by value.
+func (ex *Exec) isZeroValue(st *State, v, z Value) *Term {
+	switch zz := z.(type) {
+	case *Term:
+		if t, ok := v.(*Term); ok {
+			return Eq(t, zz)
+		}
+	case *VStruct:
+		if vs, ok := v.(*VStruct); ok && len(vs.Fields) == len(zz.Fields) {
+			var cs []*Term
+			for i := range zz.Fields {
+				cs = append(cs, ex.isZeroValue(st, vs.Fields[i], zz.Fields[i]))
+			}
+			return And(cs...)
+		}
+	case *VPtr:
+		if p, ok := v.(*VPtr); ok {
+			return p.Nil
+		}
+	case *VSlice:
+		if sl, ok := v.(*VSlice); ok {
+			return And(Eq(sl.Len, IntLit(0)), Eq(sl.Cap, IntLit(0)), Eq(sl.Ref, IntLit(0)))
+		}
+	case *VIface:
+		if i, ok := v.(*VIface); ok {
+			return Eq(i.Tag, IntLit(0))
+		}
+	case *VMap:
+		if m, ok := v.(*VMap); ok {
+			return Eq(m.Ref, IntLit(0))
+		}
+	case *VFunc:
+		if f, ok := v.(*VFunc); ok && f.Nil != nil {
+			return f.Nil
+		}
+	case *VTuple:
+		if t, ok := v.(*VTuple); ok && len(t.Vals) == len(zz.Vals) {
+			var cs []*Term
+			for i := range zz.Vals {
+				cs = append(cs, ex.isZeroValue(st, t.Vals[i], zz.Vals[i]))
+			}
+			return And(cs...)
+		}
+	}
+	return False // not comparable: the obligation fails
+}
